@@ -7,7 +7,8 @@
 //! gv_lex lex      stdin: {"id":..,"hex":"<hex of the UTF-8 bytes>"} per line
 //!     stdout: {"id":..,"out":"<canonical line>"}
 //!       OK <tok>;<tok>;..      tok = <kind>,<hex of text>,<start_idx>,<line>,<col>[,<keyword index | ->]
-//!       ERR <code point>       ("Unhandled character: c")      ERR? <hex msg>   (any other error text)
+//!       ERR <code point>       ("Unhandled character: c")      ERRQ <code point of the quote>  ("Unterminated quoted string")
+//!       ERR? <hex msg>   (any other error text)
 //!       PANIC <hex msg>
 //!     kinds: W (Word, unquoted; extra field keyword index = `Keyword as usize`) Q (Word quoted by '"')
 //!            S (SingleQuotedString) N (Number) WS (Whitespace) C (Comment::SingleLine) MC (Comment::Multiline)
@@ -95,11 +96,22 @@ fn lex_one(sql: &str) -> String {
         }
         Ok((Err(e), _)) => {
             let m = e.get_msg().to_string();
-            match m.strip_prefix("Unhandled character: ") {
-                Some(rest) if rest.chars().count() == 1 => {
-                    format!("ERR {}", rest.chars().next().unwrap() as u32)
+            let one = |rest: &str| {
+                if rest.chars().count() == 1 {
+                    rest.chars().next().map(|c| c as u32)
+                } else {
+                    None
                 }
-                _ => format!("ERR? {}", hex(&m)),
+            };
+            if let Some(c) = m.strip_prefix("Unhandled character: ").and_then(one) {
+                format!("ERR {c}")
+            } else if let Some(c) = m
+                .strip_prefix("Unterminated quoted string: missing closing ")
+                .and_then(one)
+            {
+                format!("ERRQ {c}")
+            } else {
+                format!("ERR? {}", hex(&m))
             }
         }
         Err(p) => format!("PANIC {}", hex(&panic_msg(p))),
